@@ -1,6 +1,6 @@
 import glob, hashlib, json, os
 
-ENDPOINTS = 6
+ENDPOINTS = 7              # the six ingest endpoints + one kept instance of the /1/ API-key middleware
 OPS_PER_ENDPOINT = 12      # 8 keys in X-Honeycomb-Team, 3 in X-Hny-Team, 1 without any key header
 
 
@@ -63,7 +63,7 @@ def custom(vc, spec, tier, seed, replay):
     cov["grid"] = {"configurations_expected": want, "configurations_enumerated": len(cells),
                    "requests_per_configuration": ENDPOINTS * OPS_PER_ENDPOINT, "requests_enumerated": requests,
                    "space": "SendKeyMode (from the config metadata) x AcceptOnlyListedKeys x SendKey {unset, classic, E&S} x "
-                            "ReceiveKeys {none, set} x ReceiveKeyIDs {none, set}; per configuration 6 endpoints x "
+                            "ReceiveKeys {none, set} x ReceiveKeyIDs {none, set}; per configuration 6 endpoints + a kept instance of the /1/ key middleware x "
                             "client key {blank, =SendKey, listed classic, listed E&S, listed by key ID, classic key whose ID "
                             "would be listed, unlisted classic, unlisted E&S} in X-Honeycomb-Team, 3 keys in X-Hny-Team, no header"}
     vc.write_evidence(spec["property"], ev)
@@ -80,9 +80,11 @@ SPEC = dict(
     thorough=dict(cases=8 * 700, len=60, shards=8),
     nontrivial=nontrivial,
     rule="each generator shard first enumerates the complete configuration grid (mode x AcceptOnlyListedKeys x SendKey shape x "
-         "ReceiveKeys x ReceiveKeyIDs = 144 configurations, 72 requests each: every endpoint x every client-key class x header "
+         "ReceiveKeys x ReceiveKeyIDs = 144 configurations, 84 requests each: every endpoint x every client-key class x header "
          "variant, concrete key strings drawn from the seed), then adds random configurations (longer lists, SendKey listed, "
-         "empty-string list members, out-of-list modes, near-miss keys); a case = one configuration with its requests run "
+         "empty-string list members, out-of-list modes, near-miss keys, and in 60% of them a reload of the access-key "
+         "configuration in the middle of the case); router, gRPC servers and the middleware instance are built once per process, "
+         "before any case's configuration is in force, so every request runs against a configuration loaded after construction; a case = one configuration with its requests run "
          "against the real router / gRPC handlers; non-trivial = a request accepted with data leaving and, in the same case, a "
          "refusal or a replaced key; distinct by transcript hash",
     trusted_base=["husky v0.43.1 header validation (blank key refused) — re-established by `facts` on every run",
@@ -106,5 +108,8 @@ SPEC = dict(
                  "requests are otherwise well-formed (content type, dataset header, body)",
                  "configurations listing the empty string among ReceiveKeys are outside the documented table "
                  "(model comparison only, no monitor verdict)",
+                 "endpoints follow a reload because mux rebuilds the middleware chain per matched request (gorilla/mux v1.8.1 "
+                 "Router.Match) — observed through the real router, not assumed; the kept-instance comparison pins the closure's "
+                 "own per-request lookup as a correspondence obligation (model comparison only, no monitor verdict)",
                  "husky refuses a blank API key during translation (Env.HuskySpec)"],
 )
